@@ -130,11 +130,13 @@ class Fan(Device):
     async def turn_on(self, speed: int | None = None) -> None:
         """Turn on fan."""
         if self.switch.initialized:
-            self.switch.on()
             # For a switch GA fan, we only use an explicitly provided speed, but not
             # arbitrarily set a default speed here, compared to the speed GA based fans below.
-            if speed is not None:
-                await self.set_speed(speed)
+            # Convert it before the switch telegram is sent - a refused speed shall not turn on the fan.
+            speed_payload = self.speed.to_knx(speed) if speed is not None else None
+            self.switch.on()
+            if speed_payload is not None:
+                self.speed.send_raw(speed_payload)
         else:
             if speed is None:
                 speed = (
